@@ -40,23 +40,24 @@ type Dyn struct {
 
 // Section is a global / defaults / frontend / backend / listen section.
 type Section struct {
-	Kind      string   `json:"kind"` // frontend | backend | listen | other
-	Name      string   `json:"name"`
-	Servers   []Server `json:"servers,omitempty"`
-	Use       []string `json:"use,omitempty"`      // literal use_backend targets
-	UseDyn    []Dyn    `json:"use_dyn,omitempty"`  // dynamic use_backend targets
-	Default   []string `json:"default,omitempty"`  // default_backend
-	AuthBack  []string `json:"authback,omitempty"` // lua.auth-intercept <backend>
-	Userlists []string `json:"userlists,omitempty"`
-	Maps      []string `json:"maps,omitempty"`     // every map / list file referenced
-	CrtLists  []string `json:"crtlists,omitempty"` // crt-list <file>
-	Files     []string `json:"files,omitempty"`    // crt / ca-file / crl-file / config <file>
-	IDMaps    []string `json:"idmaps,omitempty"`   // maps feeding txn.pathID
-	IDsUsed   []string `json:"ids_used,omitempty"` // var(txn.pathID) -m str <ids>
-	UseServer []string `json:"use_server,omitempty"`
-	Templates int      `json:"server_templates,omitempty"`
-	Binds     []string `json:"binds,omitempty"` // bind addresses
-	BindIDs   []int    `json:"bind_ids,omitempty"`
+	Kind          string   `json:"kind"` // frontend | backend | listen | other
+	Name          string   `json:"name"`
+	Servers       []Server `json:"servers,omitempty"`
+	Use           []string `json:"use,omitempty"`      // literal use_backend targets
+	UseDyn        []Dyn    `json:"use_dyn,omitempty"`  // dynamic use_backend targets
+	Default       []string `json:"default,omitempty"`  // default_backend
+	AuthBack      []string `json:"authback,omitempty"` // lua.auth-intercept <backend>
+	Userlists     []string `json:"userlists,omitempty"`
+	Maps          []string `json:"maps,omitempty"`     // every map / list file referenced
+	CrtLists      []string `json:"crtlists,omitempty"` // crt-list <file>
+	Files         []string `json:"files,omitempty"`    // crt / ca-file / crl-file / config <file>
+	IDMaps        []string `json:"idmaps,omitempty"`   // maps feeding txn.pathID
+	IDsUsed       []string `json:"ids_used,omitempty"` // var(txn.pathID) -m str <ids>
+	UseServer     []string `json:"use_server,omitempty"`
+	Templates     int      `json:"server_templates,omitempty"`
+	ResolversUsed []string `json:"resolvers_used,omitempty"` // `resolvers <name>` on server lines
+	Binds         []string `json:"binds,omitempty"`          // bind addresses
+	BindIDs       []int    `json:"bind_ids,omitempty"`
 
 	feeders []feeder
 }
@@ -84,6 +85,7 @@ type AuthServer struct {
 type Cfg struct {
 	Sections    []Section    `json:"sections"`
 	Userlists   []string     `json:"userlists,omitempty"` // names of the userlist sections
+	Resolvers   []string     `json:"resolvers,omitempty"` // names of the resolvers sections
 	Maps        []MapFile    `json:"maps,omitempty"`
 	CrtLists    []CrtList    `json:"crtlists,omitempty"`
 	Files       []string     `json:"files"`                // files present on disk
@@ -167,6 +169,10 @@ func Scan(dir, prefix string) (*Cfg, error) {
 					sc.cfg.Userlists = append(sc.cfg.Userlists, name)
 					inUserlist = true
 					cur = nil
+				case "resolvers":
+					sc.cfg.Resolvers = append(sc.cfg.Resolvers, name)
+					sc.cfg.Sections = append(sc.cfg.Sections, Section{Kind: "other", Name: strings.Join(w, " ")})
+					cur = &sc.cfg.Sections[len(sc.cfg.Sections)-1]
 				case "frontend", "backend", "listen":
 					sc.cfg.Sections = append(sc.cfg.Sections, Section{Kind: w[0], Name: name})
 					cur = &sc.cfg.Sections[len(sc.cfg.Sections)-1]
@@ -255,6 +261,10 @@ func (sc *scanner) line(s *Section, w []string, t string) {
 		case "config":
 			if w[0] == "filter" {
 				s.Files = appendUniq(s.Files, w[i+1])
+			}
+		case "resolvers":
+			if w[0] == "server" || w[0] == "server-template" || w[0] == "default-server" {
+				s.ResolversUsed = appendUniq(s.ResolversUsed, w[i+1])
 			}
 		case "-f":
 			s.Maps = appendUniq(s.Maps, w[i+1])
